@@ -155,6 +155,59 @@ theorem svcStepX_inPlace (c : XCtx S) (a : Api) (n : XNet G) (ha : a.armed = fal
       simp [hng', h1, h2, Api.read_of_not_armed ha, hc, hs]
 
 
+/-- on a healthy API server, with the revisions known, the Service part always succeeds and leaves the
+    Services in place -/
+theorem svcStepX_healthy (c : XCtx S) (n : XNet G)
+    (hrev : c.noGen = true ∨ (c.stableRev ≠ "" ∧ c.canaryRev ≠ "")) :
+    ∃ n2 ws, svcStepX c Api.ok n = .ok n2 ws Api.ok ∧ servicesInPlace c n2 = true ∧ n2.g = n.g ∧
+      n2.stableExists = n.stableExists ∧ (ws = [] → n2 = n) := by
+  rcases svcStepX_spec c Api.ok n with ⟨_, hng, hr⟩ | ⟨n2, ws, a2, hs, hng, _⟩ | ⟨n2, ws, a2, hs, hg, hse, hin, _, hnil, _, _⟩
+  · rcases hrev with h | ⟨h1, h2⟩
+    · rw [hng] at h; cases h
+    · rcases hr with h | h
+      · exact absurd h h1
+      · exact absurd h h2
+  · -- a healthy API server refuses neither a read nor a write
+    exfalso
+    unfold svcStepX at hs
+    rcases hrev with h | ⟨h1, h2⟩
+    · rw [hng] at h; cases h
+    · simp only [hng, Bool.false_eq_true, if_false, h1, h2, or_self, Api.read_ok, Api.spend_ok] at hs
+      cases hcs : n.canarySvc with
+      | none =>
+        simp only [hcs] at hs
+        split at hs <;> cases hs
+      | some r =>
+        simp only [hcs] at hs
+        by_cases hr : r = c.canaryRev
+        · simp only [hr, ne_eq, not_true_eq_false, if_false] at hs
+          split at hs <;> cases hs
+        · simp only [ne_eq, hr, not_false_eq_true, if_true] at hs
+          split at hs <;> cases hs
+  · have ha2 : a2 = Api.ok := by
+      unfold svcStepX at hs
+      by_cases hng : c.noGen = true
+      · simp only [hng, if_true] at hs
+        injection hs with _ _ h3
+        exact h3.symm
+      · have hng' : c.noGen = false := by simpa using hng
+        rcases hrev with h | ⟨h1, h2⟩
+        · exact absurd h hng
+        · simp only [hng', Bool.false_eq_true, if_false, h1, h2, or_self, Api.read_ok, Api.spend_ok] at hs
+          cases hcs : n.canarySvc with
+          | none =>
+            simp only [hcs] at hs
+            split at hs <;> (injection hs with _ _ h3; exact h3.symm)
+          | some r =>
+            simp only [hcs] at hs
+            by_cases hr : r = c.canaryRev
+            · simp only [hr, ne_eq, not_true_eq_false, if_false] at hs
+              split at hs <;> (injection hs with _ _ h3; exact h3.symm)
+            · simp only [ne_eq, hr, not_false_eq_true, if_true] at hs
+              split at hs <;> (injection hs with _ _ h3; exact h3.symm)
+    subst ha2
+    exact ⟨n2, ws, hs, hin, hg, hse, hnil⟩
+
 /-! ## the retry-style calls -/
 
 theorem unpinned_of_none {n : XNet G} (h : n.stableSel.getD "" = "") : unpinned n = true := by
